@@ -215,3 +215,18 @@ TEXT["C11"] = dict(
     level_note="trusts the shim's fidelity to the std primitives (no spurious wake-ups, any waiter may be picked by "
                "notify_one) and TSan for missing synchronisation; termination is only observed as 'no deadlock state and "
                "no watchdog expiry on the schedules explored'")
+TEXT["C10"] = dict(
+    engine="dsched",
+    design_ref="DESIGN.md section 4, C10",
+    technique="runtime monitoring under a controlled scheduler (seeded schedules over the shimmed mutex/cv/atomic/thread of the unmodified thread_pool.cpp, deadlock detection) + offline check of the recorded job/waiter ticket history, and TSan/ASan on jittered real-thread runs",
+    level_text="Job graphs (independent jobs, jobs enqueuing jobs, outside enqueuers, several concurrent waiters, "
+               "terminate() from inside and outside, destruction with pending jobs, mutually waiting jobs) run on a real "
+               "ThreadPool whose every synchronisation operation is a seeded scheduling decision, including the window "
+               "between a waiter's predicate check and its wait. From the ticket history: exactly-once execution, "
+               "completion of everything enqueued before the wait, existence of a quiescent instant inside every "
+               "loop_until_empty() interval, done() and visibility of plain writes, no running job at "
+               "loop_until_terminate()/destructor return. A state with no runnable thread is a lost wake-up or "
+               "deadlock. Real-thread runs with injected delays under TSan/ASan cover missing synchronisation. "
+               "Exploration: held on the schedules generated.",
+    level_note="trusts the shim's fidelity and sequential consistency of controlled schedules; termination only as absence "
+               "of deadlock states / watchdog expiry on the explored schedules")
